@@ -250,6 +250,10 @@ def conditions(tier):
             extra = ['s[%d] == chr(120)' % i for i in idx if i not in free]
             if name == 'c_macro_arg2':
                 extra.append('any(s[%d] == chr(q) for q in (32, 9, 120, 46))' % idx[0])
+            if name == 'm_env':
+                # one free character next to an equation environment does not finish in 900 s (not analysed further):
+                # the free hole ranges over {space, newline, x, .} in the quick tier
+                extra += ['any(s[%d] == chr(q) for q in (32, 10, 120, 46))' % i for i in free]
         conds.append(Cond('tpl_' + name, 's: str', tpl_pre(clean) + extra, call, timeout=T_, cost=2, twin=False,
                           smoke=[dict(s=clean.replace('?', c)) for c in ('x', ' ', '\n', '.')],
                           descr='template %r (? = any character that is not one of %s); 32 option sets' % (clean, ACTIVE)))
@@ -273,7 +277,7 @@ META = dict(
                'environment_node_to_text/chars_node_to_text/do_fill_text/_fmt_indented_block', 'tolerant parser underneath'],
     bounds=dict(quick='31 templates placing comment, formula and discarded-construct markers at top level, inside arguments, optional '
                       'arguments, between macro and argument, in environment bodies, groups, inside math, after bare macros and at end of '
-                      'input without newline, each with 1-2 free holes (further holes pinned to x) ranging over every character that is not LaTeX-active (the hole that becomes an argument of \\frac: space, tab, x or .); every '
+                      'input without newline, each with 1-2 free holes (further holes pinned to x) ranging over every character that is not LaTeX-active (the hole that becomes an argument of \\frac: space, tab, x or .; the hole next to an equation environment: space, newline, x or .); every '
                       'template rendered under the option sets its markers are sensitive to (comment templates: keep_comments off/on; formula '
                       'templates: the 4 math modes; discarded constructs: 2 option sets; comments inside formulas: all 8) under one of the two '
                       'whitespace policies (alternating); fill_text concretely only',
